@@ -89,6 +89,8 @@ impl<'b, 'tx> Cursor<'b, 'tx> {
         }
         let (exists, stack) = search(key.as_ref(), b.meta.root_page, &mut b);
         self.stack = stack;
+        drop(b);
+        self.skip_empty_leaves();
         exists
     }
 
@@ -102,9 +104,57 @@ impl<'b, 'tx> Cursor<'b, 'tx> {
         match self.stack.last() {
             Some(e) => {
                 let n = b.page_node(e.id);
+                if !n.leaf() {
+                    // the cursor has moved past the last element
+                    return None;
+                }
                 n.val(e.index).map(|data| data.into())
             }
             None => None,
+        }
+    }
+
+    // Moves the cursor to the next element.
+    // Returns false if there are no more elements.
+    fn advance(&mut self) -> bool {
+        loop {
+            {
+                let b = self.bucket.borrow();
+                if b.deleted {
+                    panic!("Cannot get data from a deleted bucket.");
+                }
+                let elem = self.stack.last_mut().unwrap();
+                let page_node = b.page_node(elem.id);
+                if elem.index + 1 >= page_node.len() {
+                    if self.stack.len() == 1 {
+                        return false;
+                    }
+                    self.stack.pop();
+                    continue;
+                } else {
+                    elem.index += 1;
+                }
+            }
+            self.seek_first();
+            return true;
+        }
+    }
+
+    // A leaf that had all of its data deleted in this transaction stays in the
+    // tree until the transaction is committed, so step over it.
+    // Returns false if there are no more elements.
+    fn skip_empty_leaves(&mut self) -> bool {
+        loop {
+            {
+                let b = self.bucket.borrow();
+                let page_node = b.page_node(self.stack.last().unwrap().id);
+                if self.stack.len() == 1 || !page_node.leaf() || page_node.len() > 0 {
+                    return true;
+                }
+            }
+            if !self.advance() {
+                return false;
+            }
         }
     }
 
@@ -172,30 +222,13 @@ impl<'b, 'tx> Iterator for Cursor<'b, 'tx> {
     fn next(&mut self) -> Option<Self::Item> {
         if self.stack.is_empty() {
             self.seek_first();
-        } else if self.next_called {
-            loop {
-                {
-                    let b = self.bucket.borrow();
-                    if b.deleted {
-                        panic!("Cannot get data from a deleted bucket.");
-                    }
-                    let elem = self.stack.last_mut().unwrap();
-                    let page_node = b.page_node(elem.id);
-                    if elem.index + 1 >= page_node.len() {
-                        if self.stack.len() == 1 {
-                            return None;
-                        }
-                        self.stack.pop();
-                        continue;
-                    } else {
-                        elem.index += 1;
-                    }
-                }
-                self.seek_first();
-                break;
-            }
+        } else if self.next_called && !self.advance() {
+            return None;
         }
         self.next_called = true;
+        if !self.skip_empty_leaves() {
+            return None;
+        }
         self.current()
     }
 }
